@@ -48,7 +48,8 @@ def run(args):
                        "multiset of sources with several errors and warnings; non-trivial = distinct sources" % reps)
     pool = C.Pool(C.build_worker())
     # (2) single-module programs with one specified behaviour
-    progs = Fam.order_programs(C.seed()) + Fam.template_programs() + Fam.lambda_programs() + Fam.singleton_programs()
+    progs = Fam.order_programs(C.seed()) + Fam.template_programs() + Fam.lambda_programs() + Fam.singleton_programs() + \
+        [p for p in Fam.closure_programs() if p["feats"]["variant"] in ("read-direct", "write", "list", "loop", "nested", "global", "shadow-inner", "shadow-later")]
     progs += Fam.random_programs(150 if thorough else 30, C.seed() + 14)
     results, cases, rendered = sem.run_programs(progs, rep, backends=("vm", "tree"), pool=pool, reps=reps)
     # (3) diagnostics
